@@ -359,7 +359,7 @@ def mon_c17(c):
     if c.obs.get('GYB', 'E') != 'E':
         return 'a serialised GraphInfo with an edge to a function that does not exist was read back (GYB=%s)' % c.obs['GYB']
     if 'GYG' in c.obs and c.obs['GYG'] != 'ok %d' % (len(ge) + 1):
-        return 'a well-formed serialised GraphInfo with one more edge was not read back with that edge (GYG=%s)' % c.obs['GYG']
+        return 'the text of an acyclic GraphInfo value (this one plus a Data edge from the first to the last function of iter()) was not read back with that edge (GYG=%s)' % c.obs['GYG']
     if c.obs.get('GS') != '1':
         return 'serialise/deserialise did not yield an equal value (GS=%s)' % c.obs.get('GS')
     if parse_edges(c.obs.get('GSE', '-')) != e:
